@@ -58,6 +58,9 @@ def cls_src(name, base, fields, methods, cls_order):
             body.append(f"    {f['name']}: InitVar[int] = field(default=0" + (f", metadata={md}" if md else "") + ")")
         elif f["kind"] == "noinit":
             body.append(f"    {f['name']}: int = field(default=0, init=False" + (f", metadata={md}" if md else "") + ")")
+        elif md and sum(map(ord, f["name"] + md)) % 3 == 0:
+            # the ordering carried by the annotation of the field instead of its metadata
+            body.append(f"    {f['name']}: Annotated[int, {md}] = 0")
         else:
             body.append(f"    {f['name']}: int = field(default=0" + (f", metadata={md}" if md else "") + ")")
     for m in methods:
@@ -77,7 +80,7 @@ def cls_src(name, base, fields, methods, cls_order):
 
 
 def case_src(case):
-    L = ["from dataclasses import dataclass, field, InitVar", "from apischema import order, serialized", "from apischema.graphql import resolver", ""]
+    L = ["from dataclasses import dataclass, field, InitVar", "from typing import Annotated", "from apischema import order, serialized", "from apischema.graphql import resolver", ""]
     if case.get("base"):
         b = case["base"]
         L.append(cls_src("Base", None, b["fields"], b["methods"], b["cls_order"]))
